@@ -9,7 +9,7 @@ def run(ck):
     ck.assumptions += ['release arithmetic: + - * << >> wrap / mask (integer overflow is an allowed dynamic error of the property anyway)',
                        'operands are literals: real_type_of / real_value_of return the literal\'s own type / value']
     ck.out_of_scope += ['soundness of composed programs (needs induction over expressions -- a proof, not a bounded check)', 'let scoping, templates, regex operators, split/to_integer, the parser',
-                        'If / Index / Access / IsMemberOf / Scope (their signature inspects nested values; not encoded yet)']
+                        'Scope / Test / Like / Split / StringConcat under let-bound operands (If, Index, IsMemberOf, Access-on-tuples ARE decided under bound / shadowed / array operands)']
     milu_ops.run_all(ck, ck.dbs['milu'])
     milu_ops.spec_views(ck, ck.dbs['milu'], thorough=(ck.tier == 'thorough'))
     milu_ops.spec_arity(ck)
